@@ -228,7 +228,7 @@ def _input_class_init(tpl):
 
 def run_initialize(dbn, tpl):
     """call initialize_initial_state and compare every CPD of the model with the template by named assignment."""
-    given = {(c.variable[0], c.variable[1]): c.get_values().copy() for c in dbn.cpds}
+    given = {(c.variable[0], c.variable[1]): [x[0] for x in c.variables[1:]] for c in dbn.cpds}
     try:
         dbn.initialize_initial_state()
     except Exception as e:  # noqa
@@ -258,9 +258,11 @@ def run_initialize(dbn, tpl):
                     soft = soft or {"key": f"initialize_initial_state:{who}:state-names", "what": f"CPD of {(v, sl)} ({who}): {msg}"}
                     continue
                 sub = ""
-                if copied and kind == "values":
+                if copied and kind in ("values", "cardinality"):
                     # diagnosis: same numbers but columns in the order of get_parents() instead of the source CPD's evidence order?
-                    sub = ":parent-order" if len(parents) > 1 else ""
+                    src = given.get((v, 1 - sl))
+                    if src is not None and [x[0] for x in cpd.variables[1:]] != src:
+                        sub = ":parent-order"
                 return {"key": f"initialize_initial_state:{who}{sub}:{kind}", "what": f"CPD of {(v, sl)} ({who}): {msg}"}
     return soft
 
@@ -277,21 +279,16 @@ def compare_cpd(cpd, node, parents, tpl, table, rename=None):
         return "scope", f"variables {got_scope}, expected {want_scope[0]} | {want_scope[1:]}"
     base = {rename(n): n[0] for n in [node] + parents}
     names_ok = all(list(cpd.state_names[g]) == list(st[base[g]]) for g in got_scope)
-    vals = cpd.get_values()
-    # expected value at a named assignment
+    vals = cpd.values  # n-d array, axes in the order of cpd.variables
     _, tab = _cpd_factor(node, parents, lambda n: st[n[0]], table)
-    ev_order = got_scope[1:]
-    cols = list(itertools.product(*[range(len(st[base[g]])) for g in ev_order]))
-    if tuple(vals.shape) != (len(st[node[0]]), len(cols)):
-        return "shape", f"values have shape {tuple(vals.shape)}, expected {(len(st[node[0]]), len(cols))}"
-    for i in range(len(st[node[0]])):
-        for j, col in enumerate(cols):
-            a = {got_scope[0]: st[node[0]][i]}
-            for g, k in zip(ev_order, col):
-                a[g] = st[base[g]][k]
-            want = tab[tuple(a[rename(n)] for n in [node] + parents)]
-            if abs(float(vals[i][j]) - float(want)) > TOL:
-                return "values", f"P({got_scope[0]}={a[got_scope[0]]!r} | {dict((g, a[g]) for g in ev_order)}) = {float(vals[i][j])!r}, template says {want}"
+    shape = tuple(len(st[base[g]]) for g in got_scope)
+    if tuple(vals.shape) != shape or tuple(int(c) for c in cpd.cardinality) != shape:
+        return "cardinality", f"values have shape {tuple(vals.shape)}, cardinality {list(cpd.cardinality)}; the template gives {dict(zip(got_scope, shape))}"
+    for idx in itertools.product(*[range(k) for k in shape]):
+        a = {g: st[base[g]][i] for g, i in zip(got_scope, idx)}
+        want = tab[tuple(a[rename(n)] for n in [node] + parents)]
+        if abs(float(vals[idx]) - float(want)) > TOL:
+            return "values", f"P({got_scope[0]}={a[got_scope[0]]!r} | {dict((g, a[g]) for g in got_scope[1:])}) = {float(vals[idx])!r}, template says {want}"
     if not names_ok:
         return "state-names", f"state names {dict((g, cpd.state_names[g]) for g in got_scope)} but the template names them {dict((g, st[base[g]]) for g in got_scope)}"
     return None
@@ -676,7 +673,7 @@ def gen_inference_multi(tier, seed):
 def gen_models(tier, seed):
     rng = O.mk_rng(seed, "c17model")
     n = 0
-    for rep in range(3 if tier == "quick" else 12):
+    for rep in range(12 if tier == "quick" else 48):
         for nvars in (1, 2, 3):
             for cross in (False, True):
                 for named in (False, True):
